@@ -10,6 +10,7 @@ import (
 	"go/constant"
 	"go/token"
 	"go/types"
+	"regexp"
 	"sort"
 	"strings"
 
@@ -49,7 +50,7 @@ func indexFieldOf(searchT, indexT types.Type) string {
 	}
 	for i := 0; i < st.NumFields(); i++ {
 		if types.Identical(st.Field(i).Type(), indexT) {
-			return st.Field(i).Name()
+			return roleFieldName(p.Elem(), st.Field(i).Name())
 		}
 	}
 	return ""
@@ -170,7 +171,9 @@ func ruleScanADM(r *Run, rule string, k *vecKind, spec admSpec) {
 		note string
 	}
 	var problems []string
-	classify := func(cond ssa.Value) atom {
+	var classifyWith func(cond ssa.Value, S func(ssa.Value) string) atom
+	classify := func(cond ssa.Value) atom { return classifyWith(cond, c.S) }
+	classifyWith = func(cond ssa.Value, S func(ssa.Value) string) atom {
 		neg := false
 		for {
 			u, ok := cond.(*ssa.UnOp)
@@ -185,7 +188,7 @@ func ruleScanADM(r *Run, rule string, k *vecKind, spec admSpec) {
 			cc := x.Common()
 			switch calleeName(cc) {
 			case roaringBitmap + "Contains":
-				recv, arg := c.S(cc.Args[0]), c.S(cc.Args[1])
+				recv, arg := S(cc.Args[0]), S(cc.Args[1])
 				if recv == delCanon {
 					if !isElemID(arg) {
 						problems = append(problems, fmt.Sprintf("soft-delete test at %s is applied to %s, not to the id of the admitted element %s", w.InstrPos(x), arg, elemC))
@@ -195,7 +198,7 @@ func ruleScanADM(r *Run, rule string, k *vecKind, spec admSpec) {
 				}
 			case cometPath + ".(*DocumentFilter).ShouldSkip", "(*" + cometPath + ".DocumentFilter).ShouldSkip",
 				"(*" + cometPath + ".DocumentFilter).IsEligible":
-				recv, arg := c.S(cc.Args[0]), c.S(cc.Args[1])
+				recv, arg := S(cc.Args[0]), S(cc.Args[1])
 				if recv != filterCanon {
 					problems = append(problems, fmt.Sprintf("document filter at %s is %s, not %s", w.InstrPos(x), recv, filterCanon))
 					return atom{kind: aUnknown}
@@ -214,7 +217,7 @@ func ruleScanADM(r *Run, rule string, k *vecKind, spec admSpec) {
 				if isZeroConst(v) {
 					return "0"
 				}
-				s := c.S(v)
+				s := S(v)
 				if v == sink.Dist || s == distC {
 					return "dist"
 				}
@@ -274,23 +277,58 @@ func ruleScanADM(r *Run, rule string, k *vecKind, spec admSpec) {
 		if p.End == EndStop && len(p.Blocks) == 2 && !loop.Blocks[p.Blocks[1]] {
 			continue // loop exit from the header
 		}
-		pi := pinfo{p: p, admitted: p.Has(sink.Call)}
+		// variants: a decision on a call to a pure predicate of the package (s.skipCandidate(filter, &v)) is replaced by
+		// the decisions of each of the predicate's own paths that yields the taken outcome
+		variants := []pinfo{{p: p, admitted: p.Has(sink.Call)}}
 		for _, d := range p.Decisions {
 			a := classify(d.Cond)
-			pi.atoms = append(pi.atoms, a)
-			pi.takens = append(pi.takens, d.Taken)
-			switch a.kind {
-			case aDEL:
-				sawDEL = true
-			case aSKIP:
-				sawSKIP = true
-			case aCMP:
-				if a.cmp.L == "dist" || a.cmp.R == "dist" {
-					sawTHR = true
+			var inner []predPath
+			if a.kind == aUnknown {
+				inner = expandPredicate(w, c, d.Cond, func(cond ssa.Value, S func(ssa.Value) string) (bool, bool, bool) {
+					ia := classifyWith(cond, S)
+					return ia.kind != aUnknown, false, false
+				})
+			}
+			if inner == nil {
+				for i := range variants {
+					variants[i].atoms = append(variants[i].atoms, a)
+					variants[i].takens = append(variants[i].takens, d.Taken)
+				}
+				continue
+			}
+			var next []pinfo
+			for _, v := range variants {
+				for _, ip := range inner {
+					if ip.result != d.Taken {
+						continue
+					}
+					nv := pinfo{p: v.p, admitted: v.admitted}
+					nv.atoms = append(append([]atom{}, v.atoms...), make([]atom, 0, len(ip.conds))...)
+					nv.takens = append([]bool{}, v.takens...)
+					for j, cnd := range ip.conds {
+						nv.atoms = append(nv.atoms, classifyWith(cnd, ip.S))
+						nv.takens = append(nv.takens, ip.takens[j])
+					}
+					next = append(next, nv)
 				}
 			}
+			variants = next
 		}
-		infos = append(infos, pi)
+		for _, pi := range variants {
+			for _, a := range pi.atoms {
+				switch a.kind {
+				case aDEL:
+					sawDEL = true
+				case aSKIP:
+					sawSKIP = true
+				case aCMP:
+					if a.cmp.L == "dist" || a.cmp.R == "dist" {
+						sawTHR = true
+					}
+				}
+			}
+			infos = append(infos, pi)
+		}
 	}
 	if len(problems) > 0 {
 		sort.Strings(problems)
@@ -392,6 +430,108 @@ func ruleScanADM(r *Run, rule string, k *vecKind, spec admSpec) {
 		return
 	}
 	r.Ok(rule, k.Name+":table", site, detail+": admitted ⇔ ¬DEL ∧ ¬SKIP ∧ (thr ≤ 0 ∨ dist ≤ thr) in every state")
+}
+
+// predPath is one path through a pure boolean helper: the branch conditions met (with the rendering function that
+// translates the helper's canonical names to the caller's), the outcomes taken, and the value returned.
+type predPath struct {
+	conds  []ssa.Value
+	takens []bool
+	result bool
+	S      func(ssa.Value) string
+}
+
+var paramTok = regexp.MustCompile(`\bP(\d+)\b`)
+
+// expandPredicate: cond is (possibly negated) a static call to a loop-free comet function with a single bool result
+// whose instructions are loads, calls in branch conditions, branches and returns of constants / conditions. Returns
+// its paths, or nil when the callee is not of that shape. known tells whether a condition is one the caller's table
+// recognises (so that unrecognised helper bodies are not expanded into noise).
+func expandPredicate(w *World, c *Canon, cond ssa.Value, known func(cond ssa.Value, S func(ssa.Value) string) (bool, bool, bool)) []predPath {
+	neg := false
+	for {
+		u, ok := cond.(*ssa.UnOp)
+		if !ok || u.Op != token.NOT {
+			break
+		}
+		neg = !neg
+		cond = u.X
+	}
+	call, ok := cond.(*ssa.Call)
+	if !ok {
+		return nil
+	}
+	g := staticCallee(call.Common())
+	if g == nil || g.Pkg != w.SPkg || len(g.Blocks) == 0 || len(loopsOf(g)) > 0 {
+		return nil
+	}
+	res := g.Signature.Results()
+	if res.Len() != 1 || types.TypeString(res.At(0).Type(), nil) != "bool" {
+		return nil
+	}
+	// no effects: no stores, map updates, sends, defers, go
+	pure := true
+	allInstrs(g, func(in ssa.Instruction) {
+		switch in.(type) {
+		case *ssa.Store, *ssa.MapUpdate, *ssa.Send, *ssa.Defer, *ssa.Go, *ssa.Panic:
+			pure = false
+		}
+	})
+	if !pure {
+		return nil
+	}
+	var args []string
+	for _, a := range call.Call.Args {
+		args = append(args, c.S(a))
+	}
+	cg := NewCanon(w)
+	S := func(v ssa.Value) string {
+		return paramTok.ReplaceAllStringFunc(cg.S(v), func(m string) string {
+			n := 0
+			fmt.Sscanf(m, "P%d", &n)
+			if n < len(args) {
+				return args[n]
+			}
+			return m
+		})
+	}
+	paths, trunc := enumPaths(g.Blocks[0], walkCfg{MaxVisits: 1, MaxPaths: 200})
+	if trunc {
+		return nil
+	}
+	var out []predPath
+	anyKnown := false
+	for _, p := range paths {
+		if p.End != EndReturn || !p.Feasible() {
+			continue
+		}
+		pp := predPath{S: S}
+		for _, d := range p.Decisions {
+			pp.conds = append(pp.conds, d.Cond)
+			pp.takens = append(pp.takens, d.Taken)
+			if k, _, _ := known(d.Cond, S); k {
+				anyKnown = true
+			}
+		}
+		rv := resolveOnPath(p, p.Ret.Results[0])
+		if k, ok := rv.(*ssa.Const); ok && k.Value != nil && k.Value.Kind() == constant.Bool {
+			pp.result = constant.BoolVal(k.Value) != neg
+			out = append(out, pp)
+			continue
+		}
+		// returned condition: both outcomes
+		if k, _, _ := known(rv, S); k {
+			anyKnown = true
+		}
+		for _, tv := range []bool{true, false} {
+			q := predPath{S: S, conds: append(append([]ssa.Value{}, pp.conds...), rv), takens: append(append([]bool{}, pp.takens...), tv), result: tv != neg}
+			out = append(out, q)
+		}
+	}
+	if !anyKnown || len(out) == 0 {
+		return nil
+	}
+	return out
 }
 
 func dedup(s []string) []string {
